@@ -189,6 +189,8 @@ CLAIMED["C11"]["text"] += (" Chained with the translated parser of src/parser.rs
 CLAIMED["C05"]["text"] += (" Chained: httparse's outcome -> the two translated parsers -> the translated Call::try_response equals the model's call_try_response (c05_code_call_try_response_chain).")
 CLAIMED["C05"]["text"] += (" What a FAILED Call::try_response leaves behind is translated too (error-state mode): the reader as it was (c05_code_failed_try_response_changes_nothing).")
 CLAIMED["C10"]["text"] += (" What a FAILED Flow::try_response leaves behind is translated too (error-state mode): reasons, await flag, status and location as they were (c10_code_failed_try_response_changes_nothing).")
+CLAIMED["C13"]["text"] += (" The capacity-checked append read into unset_header is the translated src/util.rs ArrayVec::push on a vector of capacity 3 (c13_code_arrayvec_unset).")
+CLAIMED["C16"]["text"] += (" The vector behind the added headers: the translated src/util.rs ArrayVec::push appends on the visible part and panics exactly when full, for any capacity (c16_code_arrayvec_push_capped).")
 for _p in ("C02", "C03", "C04", "C06", "C07", "C08", "C09", "C10", "C11", "C12", "C13", "C16", "C17"):
     CLAIMED[_p]["technique"] += " + the code's own functions translated to Gallina on every run and proved equivalent to the model"
 
